@@ -72,7 +72,16 @@ namespace {
    constexpr uintptr_t arena_base = 0x300000000000ull;
    constexpr size_t small_size = size_t(256) << 20;
    constexpr size_t large_size = size_t(768) << 20;
-   constexpr size_t owner_size = small_size + large_size;
+   // Far segments: small-block regions several GiB away from the main one, as a real process has them (brk heap,
+   // mmap area, a second malloc arena).  Distances beyond 2^31 and 2^32 bytes between nodes are part of the address
+   // adversity the scatter policy explores.
+   constexpr int nsegments = 4;
+   constexpr size_t far_size = size_t(64) << 20;
+   // Offsets are chosen so that pairwise distances cover: under 2^31 (1.5 GiB), between 2^31 and 2^32 (2.5, 3 GiB),
+   // exactly 2^32 plus or minus a little (so the low 32 bits of a distance can be zero or of either sign), and
+   // over 2^32 with the low half above and below 2^31 (7, 8.5, 11 GiB).
+   constexpr size_t segment_offset[nsegments] = { 0, (size_t(5) << 29), (size_t(4) << 30), (size_t(11) << 30) + 0x7000 };
+   constexpr size_t owner_size = size_t(16) << 30;
    constexpr size_t arena_size = owner_size * max_owners;
    constexpr size_t large_threshold = 32 * 1024;
    constexpr size_t redzone = 32;
@@ -87,7 +96,8 @@ namespace {
       uint32_t cap;          // usable bytes (multiple of 16)
       uint32_t op;           // op index that allocated it
       uint16_t owner;
-      uint16_t large;
+      uint8_t large;
+      uint8_t seg;
       Hdr* next_free;
       Hdr* lprev;
       Hdr* lnext;
@@ -105,7 +115,7 @@ namespace {
    };
 
    struct Owner {
-      Region small, large;
+      Region small[nsegments], large;
       Hdr* live_head = nullptr;
       size_t nlive = 0;
       uint64_t live_bytes = 0;
@@ -206,7 +216,9 @@ namespace {
       Owner& o = g_owners[g_cur];
       o.dirty = true;
       const bool is_large = cap >= large_threshold;
-      Region& r = is_large ? o.large : o.small;
+      int seg = 0;
+      if (not is_large and g_policy == Scatter and g_rng.chance(1, 4)) seg = int(g_rng.below(nsegments));
+      Region& r = is_large ? o.large : o.small[seg];
 
       Hdr* h = nullptr;
       bool reused = false;
@@ -241,6 +253,7 @@ namespace {
       h->op = g_op;
       h->owner = uint16_t(g_cur);
       h->large = is_large;
+      h->seg = uint8_t(seg);
       h->next_free = nullptr;
       h->lprev = nullptr;
       h->lnext = o.live_head;
@@ -272,7 +285,7 @@ namespace {
       h->magic = magic_free;
       h->lprev = h->lnext = nullptr;
       POISON(user_of(h), h->cap);
-      Region& r = h->large ? o.large : o.small;
+      Region& r = h->large ? o.large : o.small[h->seg];
       const int c = class_of(h->cap);
       h->next_free = r.free_heads[c];
       r.free_heads[c] = h;
@@ -303,10 +316,12 @@ namespace {
       for (int i = 0; i < max_owners; ++i) {
          char* base = reinterpret_cast<char*>(arena_base) + size_t(i) * owner_size;
          Owner& o = g_owners[i];
-         o.small.start = o.small.lo = base;
-         o.small.end = o.small.hi = base + small_size;
+         for (int k = 0; k < nsegments; ++k) {
+            o.small[k].start = o.small[k].lo = base + segment_offset[k];
+            o.small[k].end = o.small[k].hi = base + segment_offset[k] + (k == 0 ? small_size : far_size);
+         }
          o.large.start = o.large.lo = base + small_size;
-         o.large.end = o.large.hi = base + owner_size;
+         o.large.end = o.large.hi = base + small_size + large_size;
       }
       g_mapped = true;
    }
@@ -316,7 +331,7 @@ namespace {
       init();
       for (auto& o : g_owners) {
          if (not o.dirty) continue;
-         region_reset(o.small);
+         for (auto& r : o.small) region_reset(r);
          region_reset(o.large);
          o.live_head = nullptr;
          o.nlive = 0;
